@@ -59,27 +59,31 @@ def main():
     rc, o2 = build_demo(demo, '/var/tmp/mutval-demo1'); assert rc == 0, o2[-2000:]
     rc1, out1 = sh('timeout 300 /var/tmp/mutval-demo1')
     meta['demo_mutant_exit'] = rc1
-    sh(f'git -C {VAL} checkout -q -- .')
+    scratch = '--scratch' in sys.argv      # run the checks against the patched scratch tree (AITB_REPO) instead of patching /repo
+    if not scratch:
+        sh(f'git -C {VAL} checkout -q -- .')
     ok = meta['suite_pass'] and rc0 == 0 and rc1 != 0
     meta['confirmed'] = ok
     print(json.dumps(meta, indent=1))
     if not ok:
         print('NOT CONFIRMED'); return 3
     # run my checks against the change applied to /repo
-    assert sh('git -C /repo status --porcelain')[1].strip() == '', '/repo not clean'
-    rc, out = sh(f'git -C /repo apply {patch}'); assert rc == 0, out
+    if not scratch:
+        assert sh('git -C /repo status --porcelain')[1].strip() == '', '/repo not clean'
+        rc, out = sh(f'git -C /repo apply {patch}'); assert rc == 0, out
+    envp = f'AITB_REPO={VAL} ' if scratch else ''
     results = {}
     # a run against a mutated tree must not leave its evidence behind
     saved = {c: open(os.path.join(VERIF, 'evidence', c + '.json')).read() for c in checks if os.path.exists(os.path.join(VERIF, 'evidence', c + '.json'))}
     try:
         for c in checks:
             t0 = time.time()
-            rc, out = sh(f'cd {VERIF} && python3 tools/check.py {c} --tier quick')
+            rc, out = sh(f'cd {VERIF} && {envp}python3 tools/check.py {c} --tier quick')
             lines = out.strip().split('\n')
             results[c] = {'exit': rc, 'violation_lines': [l for l in lines if l.startswith('VIOLATION')][:5], 'summary': lines[-1], 'wall_s': round(time.time() - t0, 1)}
-            meta['ran'].append(f'python3 tools/check.py {c} --tier quick  (patch applied to /repo) -> exit {rc}')
+            meta['ran'].append(f'python3 tools/check.py {c} --tier quick  (patch applied to ' + ('a scratch worktree of /repo at the same commit, AITB_REPO' if scratch else '/repo') + f') -> exit {rc}')
     finally:
-        sh('git -C /repo checkout -- .')
+        sh(f'git -C {VAL} checkout -q -- .') if scratch else sh('git -C /repo checkout -- .')
         for c, txt in saved.items():
             open(os.path.join(VERIF, 'evidence', c + '.json'), 'w').write(txt)
     meta['checks'] = results
